@@ -32,6 +32,7 @@ static struct {
 } G = { .report_fd = -1, .shp = &g_root_shp };
 
 static pid_t g_forker_tid;
+static int g_trace;
 
 static inline void bump(void)
 {
@@ -47,6 +48,8 @@ static void phase(const char *p)
 	char tmp[56];
 	snprintf(tmp, sizeof(tmp), "%s", p);
 	memcpy(G.shp->phase, tmp, sizeof(tmp));
+	if (g_trace)
+		fprintf(stderr, "T %.3f d%d pid %d %s\n", vp_now_ns() / 1e9, G.depth, (int) getpid(), tmp);
 	bump();
 }
 
